@@ -45,7 +45,7 @@ def upvar_index(body, name_or_idx):
     return None
 
 
-def expand(facts, body, origins, stop_at=(), depth=0, _seen=None):
+def expand(facts, body, origins, stop_at=(), depth=0, _seen=None, interproc=False):
     """Replace ('param', k) / ('upvar', x) origins by the origins of what the callers / the creating
     function pass. Origins that cannot be expanded (root function, no call site) are kept."""
     _seen = _seen if _seen is not None else set()
@@ -60,8 +60,8 @@ def expand(facts, body, origins, stop_at=(), depth=0, _seen=None):
             i = upvar_index(body, o[1])
             if par is not None and i is not None and i < len(agg["ops"]):
                 _seen.add(key)
-                pp = Prov(par, stop_at=stop_at)
-                out |= expand(facts, par, pp.origins_op(agg["ops"][i]), stop_at, depth + 1, _seen)
+                pp = Prov(par, stop_at=stop_at, interproc=interproc)
+                out |= expand(facts, par, pp.origins_op(agg["ops"][i]), stop_at, depth + 1, _seen, interproc)
             else:
                 out.add(o)
         elif o[0] == "param" and body.kind in ("Fn", "AssocFn"):
@@ -72,8 +72,8 @@ def expand(facts, body, origins, stop_at=(), depth=0, _seen=None):
             _seen.add(key)
             for (cb, c) in sites:
                 if o[1] - 1 < len(c.args):
-                    cp = Prov(cb, stop_at=stop_at)
-                    out |= expand(facts, cb, cp.origins_op(c.args[o[1] - 1]), stop_at, depth + 1, _seen)
+                    cp = Prov(cb, stop_at=stop_at, interproc=interproc)
+                    out |= expand(facts, cb, cp.origins_op(c.args[o[1] - 1]), stop_at, depth + 1, _seen, interproc)
         else:
             out.add(o)
     return out
